@@ -503,7 +503,7 @@ trampoline, a procedure call runs the whole body by plain recursion.  Stores are
 reference never touches it).  Outcomes are compared with `Ref.Agree`: equal values; equal errors,
 except that where the reference reports a non-procedure operator (R7RS leaves the order of these
 checks open) the model — whose trampoline evaluates a pending tail call with
-`eval_procedure_call`, operands first, error unlocated — may report another error. -/
+`eval_procedure_call`, operands first — may report that call's operand error instead. -/
 
 /-- Every outcome of the model's `evalExpr` that is not the fuel error is the outcome of the
 reference evaluator (for some fuel), with the same final store. -/
